@@ -377,8 +377,13 @@ class DocGen:
             # dotted bindings that share a root, as in a set: `l_fam.x = 1; l_fam.y = 2;`
             self.n += 1
             root = f"l_fam{self.n}"
+            leaves = []
             for lf in self.names(self.r.choice([2, 2, 3])):
-                e = Entry("attrpath", [root, lf.replace("-", "_").replace("'", "")], value=self.value())
+                lf = lf.replace("-", "_").replace("'", "")
+                if lf not in leaves:
+                    leaves.append(lf)
+            for lf in leaves:
+                e = Entry("attrpath", [root, lf], value=self.value())
                 self.decorate(e, first=not out)
                 out.append(e)
         return out
